@@ -160,8 +160,14 @@ class _RankGen:
         self.host_pid = 1000 + rank_pos * 17 + rng.below(5)
         self.dev = 0 if knobs["device_pid"] == "zero" else (rank_pos % 8)
         all_streams = [7, 20, 24, 28, 32]
-        self.streams = all_streams[: knobs["streams"]]
+        n_streams = knobs["streams"]
+        self.multi_thread = knobs["threads"] != "main"
+        if knobs["causal"] and self.multi_thread:
+            n_streams = max(2, n_streams)
+        self.streams = all_streams[: n_streams]
         self.free_at: Dict[int, int] = {s: 0 for s in self.streams}
+        self.cur_tid: Any = None
+        self.main_tid: Any = None
         self.corr = 100 + rng.below(50) + rank_pos * 100000
         self.ext_id = 1
         # entries: dicts with "_t" (sort time in ticks), "_grp" (host/device/other), event body
@@ -213,9 +219,21 @@ class _RankGen:
             ev["_ts"] = ts
         self.entries.append({"_t": ts, "_grp": "other", "ev": ev})
 
+    def my_streams(self) -> List[int]:
+        """Causal multi-thread worlds: threads are generated one after the other, so a
+        synchronising call can only know about work that was generated before it.  Each
+        thread therefore feeds its own streams (the main thread the first half, all other
+        threads the rest) and the main thread issues no device-wide synchronisation."""
+        if not (self.k["causal"] and self.multi_thread):
+            return self.streams
+        half = (len(self.streams) + 1) // 2
+        if self.cur_tid == self.main_tid:
+            return self.streams[:half]
+        return self.streams[half:] or self.streams[-1:]
+
     # -- device side -------------------------------------------------------------------------
     def emit_device_activity(self, kind: str, launch_ts: int, launch_end: int, corr: int) -> None:
-        stream = self.rng.choice(self.streams)
+        stream = self.rng.choice(self.my_streams())
         r = self.rng
         if self.k["causal"] or r.chance(0.8):
             earliest = launch_ts + r.randint(0, 8 * self.unit)
@@ -272,17 +290,20 @@ class _RankGen:
         r = self.rng
         k = self.k
         self.ext_id += 1
+        self.cur_tid = tid
         x = r.random()
         sync_p = k["sync_p"]
         if x < sync_p:
             # synchronising call
             corr = self.next_corr()
             kinds = ["stream", "device"]
+            if k["causal"] and self.multi_thread and tid == self.main_tid:
+                kinds = ["stream"]
             if k["event_sync"]:
                 kinds += ["event_record", "event_sync", "stream_wait"]
             kind = r.choice(kinds)
             if kind == "stream":
-                s = r.choice(self.streams)
+                s = r.choice(self.my_streams())
                 waited = self.free_at[s]
                 end = max(t + self.dur_ticks(1, 6), waited + r.randint(0, 2 * self.unit)) if k["causal"] \
                     else t + self.dur_ticks(1, 12)
@@ -301,14 +322,15 @@ class _RankGen:
                 self.emit_sync_activity("Context Sync", -1, s_ts, max(end - s_ts - r.randint(0, 1), self.min_dur()), corr)
                 return end
             if kind == "event_record":
-                s = r.choice(self.streams)
+                s = r.choice(self.my_streams())
                 d = self.dur_ticks(1, 4)
                 self.add_x("host", "cuda_runtime", "cudaEventRecord", pid, tid, t, d,
                            {"External id": self.ext_id, "cbid": 135, "correlation": corr})
                 self.event_records.append((corr, s))
                 return t + d
-            if kind == "event_sync" and self.event_records:
-                rec_corr, s = r.choice(self.event_records)
+            mine = [er for er in self.event_records if er[1] in self.my_streams()]
+            if kind == "event_sync" and mine:
+                rec_corr, s = r.choice(mine)
                 waited = self.free_at[s]
                 end = max(t + self.dur_ticks(1, 6), waited + r.randint(0, 2 * self.unit))
                 self.add_x("host", "cuda_runtime", "cudaEventSynchronize", pid, tid, t, end - t,
@@ -318,9 +340,9 @@ class _RankGen:
                                         {"wait_on_stream": s, "wait_on_cuda_event_record_corr_id": rec_corr,
                                          "wait_on_cuda_event_id": 9})
                 return end
-            if kind == "stream_wait" and self.event_records and len(self.streams) > 1:
-                rec_corr, s = r.choice(self.event_records)
-                others = [q for q in self.streams if q != s]
+            if kind == "stream_wait" and mine and len(self.my_streams()) > 1:
+                rec_corr, s = r.choice(mine)
+                others = [q for q in self.my_streams() if q != s]
                 dst = r.choice(others)
                 d = self.dur_ticks(1, 4)
                 self.add_x("host", "cuda_runtime", "cudaStreamWaitEvent", pid, tid, t, d,
@@ -424,6 +446,8 @@ class _RankGen:
         k = self.k
         threads = k["threads"].split("+") if k["threads"] != "two-main" else ["main", "main2"]
         main_tid = self.host_pid  # Kineto: main thread tid == pid
+        self.main_tid = main_tid
+        self.cur_tid = main_tid
         t = r.randint(0, 20 * self.unit)
         # the mandatory first event: a host operator without a correlation id
         first_names = self.vocab["ops"]
